@@ -352,4 +352,67 @@ theorem afterMiss_box (σb : State N) (cv tbx tC : Nat) (name : String) (v0 : Va
     rw [getTable_rawSet_ne _ _ _ _ _ (Ne.symm hne)]
     simp only [getTable_setCell, hboxget]
 
+
+/-- state after executing one module definition in `σ` with environment `locals` -/
+def afterDefinition (M name : String) (body : Block) (locals : List (String × Nat)) (tM : Nat) (σ : State N) : State N :=
+  let cI := σ.cells.length
+  let locals' := (implName, cI) :: locals
+  let σ3 := ((σ.allocCell .nil).2.allocClosure ⟨implFn body, locals', []⟩).2.setCell cI (.fn σ.closures.length)
+  (σ3.allocClosure ⟨accFn M name, locals', []⟩).2.rawSet tM (strVal name) (.fn σ3.closures.length)
+
+theorem exec_localFn (call : CallFn N) (ρ : ExtOracle N) (k : Nat) (env : Env N) (f : String) (fb : FnBody) (σ : State N) :
+    execS call ρ k env (.localFn .loc f fb) σ
+      = .ok (.next ⟨(f, σ.cells.length) :: env.locals, env.varargs⟩)
+          (((σ.allocCell .nil).2.allocClosure ⟨fb, (f, σ.cells.length) :: env.locals, []⟩).2.setCell σ.cells.length
+            (.fn σ.closures.length)) := by
+  simp [execS, State.allocClosure, State.allocCell]
+
+theorem exec_function_field (call : CallFn N) (ρ : ExtOracle N) (k : Nat) (env : Env N) (M name : String) (fb : FnBody)
+    (cM tM : Nat) (σ : State N)
+    (hM : lookupAssoc M env.locals = some cM)
+    (hcell : σ.getCell cM = .tbl tM)
+    (hslot : σ.rawGet tM (strVal name) = .nil)
+    (hmt : (σ.getTable tM).mt = none) :
+    execS call ρ (k + 1) env (.function [M, name] none fb) σ
+      = .ok (.next env) ((σ.allocClosure ⟨fb, env.locals, []⟩).2.rawSet tM (strVal name) (.fn σ.closures.length)) := by
+  have h1 : (σ.allocClosure ⟨fb, env.locals, []⟩).2.getCell cM = .tbl tM := hcell
+  have h2 : (σ.allocClosure ⟨fb, env.locals, []⟩).2.rawGet tM (strVal name) = .nil := hslot
+  have h3 : ((σ.allocClosure ⟨fb, env.locals, []⟩).2.getTable tM).mt = none := hmt
+  have h4 : (σ.allocClosure ⟨fb, env.locals, []⟩).1 = σ.closures.length := rfl
+  simp only [execS, walkFields, lookupVar, hM, h1, Res.bind, List.append_nil, h4]
+  simp [setIndexVal, h2, State.metamethod, State.metaOf, h3]
+  simp [strVal]
+
+theorem exec_do_two (call : CallFn N) (ρ : ExtOracle N) (k : Nat) (env env1 env2 : Env N) (s1 s2 : Stmt)
+    (σ σ1 σ2 : State N)
+    (h1 : execS call ρ k env s1 σ = .ok (.next env1) σ1)
+    (h2 : execS call ρ k env1 s2 σ1 = .ok (.next env2) σ2) :
+    execS call ρ k env (.doBlock (.mk [s1, s2] none)) σ = .ok (.next env) σ2 := by
+  simp [execS, execB, execSs, h1, h2, Res.bind]
+
+theorem exec_moduleDefinition (call : CallFn N) (ρ : ExtOracle N) (k : Nat) (env : Env N) (M name : String)
+    (body : Block) (cM tM : Nat) (σ : State N)
+    (hMI : M ≠ implName)
+    (hM : lookupAssoc M env.locals = some cM)
+    (hcell : σ.getCell cM = .tbl tM)
+    (hslot : σ.rawGet tM (strVal name) = .nil)
+    (hmt : (σ.getTable tM).mt = none) :
+    execS call ρ (k + 1) env (moduleDefinition M name body) σ
+      = .ok (.next env) (afterDefinition M name body env.locals tM σ) := by
+  have hMI' : (implName == M) = false := beq_eq_false_iff_ne.mpr (Ne.symm hMI)
+  have hcMne : σ.cells.length ≠ cM := by
+    intro h; rw [← h] at hcell; simp [State.getCell] at hcell
+  have e1 := exec_localFn call ρ (k + 1) env implName (implFn body) σ
+  have e2 := exec_function_field call ρ k ⟨(implName, σ.cells.length) :: env.locals, env.varargs⟩ M name (accFn M name)
+    cM tM
+    (((σ.allocCell .nil).2.allocClosure ⟨implFn body, (implName, σ.cells.length) :: env.locals, []⟩).2.setCell
+      σ.cells.length (.fn σ.closures.length))
+    (by simp [lookupAssoc, hMI', hM])
+    (by
+      rw [getCell_setCell_ne _ _ _ _ hcMne]
+      exact getCell_allocCell σ _ _ _ hcell (by simp))
+    hslot hmt
+  exact exec_do_two call ρ (k + 1) env _ _ _ _ σ _ _ e1 e2
+
+
 end DarkluaModel.C05
